@@ -5,7 +5,7 @@
 //! through an identically planned reader, then the reference predicate.
 
 use crate::common::*;
-use crate::deleg::Ref;
+use crate::deleg::{Ref, RefStrict};
 use crate::prng::{Hash64, Rng};
 use crate::values::{self, half_ulp, hexword, next_down_bits, next_up_bits, ref_valid_bits, SIGN};
 use serde::{Deserialize, Serialize};
@@ -790,6 +790,18 @@ pub fn execute_read(c: &JsonReadCase) -> LegReport {
         Err(e) => Err(e.clone()),
     };
 
+    // the same through a reader that insists on f64-typed numbers: if the two
+    // disagree on accept/reject the record carries integer-typed numbers, about
+    // which the property says nothing
+    let strict_ok = match guarded(|| read_as::<RefStrict>(c.host, &bytes, c.api, &c.plan)) {
+        Ok(o) => o.result.is_ok(),
+        Err(msg) => {
+            rep.violations.push(viol("HARNESS", format!("strict oracle panicked: {msg}")));
+            return rep;
+        }
+    };
+    let unspecified = oracle.result.is_ok() && !strict_ok;
+
     let got = match guarded(|| read_as::<TwoFloat>(c.host, &bytes, c.api, &c.plan)) {
         Ok(o) => o,
         Err(msg) => {
@@ -828,7 +840,11 @@ pub fn execute_read(c: &JsonReadCase) -> LegReport {
     if got.hard_fired && got_words.is_ok() {
         rep.violations.push(viol("DE_SWALLOWED_IO_ERROR", "the reader failed hard, deserialize still returned Ok"));
     }
+    if unspecified {
+        rep.probes.hit("json_integer_typed_numbers_unspecified");
+    }
     match (&expect, &got_words) {
+        _ if unspecified => {}
         (Ok(want), Ok(have)) => {
             if want != have {
                 rep.violations.push(viol(
